@@ -175,7 +175,14 @@ func c15CheckRej(c c15RejCase) h.Result {
 	honestPi := ref.VrfProve(c.Seed, honestPk, c.Alpha, nil, fn.f)
 	pk := c15BuildPk(c, honestPk)
 	pi := c15BuildPi(c, honestPi)
-	pk0, pi0, alpha := append([]byte(nil), pk...), append([]byte(nil), pi...), append([]byte(nil), c.Alpha...)
+	c15Compare(r, fn, pk, pi, c.Alpha, c.PkKind+"/"+c.PiKind)
+	return r.Result()
+}
+
+// c15Compare decides ProofToHash(pi) and Verify(pk, pi, alpha) against the
+// reference for arbitrary byte strings.
+func c15Compare(r *h.R, fn c15Fns, pk, pi, alphaIn []byte, what string) {
+	pk0, pi0, alpha := append([]byte(nil), pk...), append([]byte(nil), pi...), append([]byte(nil), alphaIn...)
 
 	// ProofToHash == decode_proof + hash, independent of any key
 	r.Eval(1)
@@ -183,13 +190,14 @@ func c15CheckRej(c c15RejCase) h.Result {
 	var gotPth []byte
 	var err error
 	if p, v := h.Catch(func() { gotPth, err = ProofToHash(pi) }); p {
-		return r.Fail("ecvrf.ProofToHash:panic", "pi=%x: %v", pi, v).Result()
+		r.Fail("ecvrf.ProofToHash:panic", "pi=%x: %v", pi, v)
+		return
 	}
 	switch {
 	case wantDec && err != nil:
 		r.Fail("ecvrf.ProofToHash:valid-proof-string-rejected", "pi=%x err=%v", pi, err)
 	case !wantDec && err == nil:
-		r.Fail("ecvrf.ProofToHash:invalid-proof-string-accepted", "kind=%s pi=%x (Gamma canonical on-curve and s<L required)", c.PiKind, pi)
+		r.Fail("ecvrf.ProofToHash:invalid-proof-string-accepted", "%s pi=%x (80 bytes, Gamma canonical and on the curve, s<L required)", what, pi)
 	case wantDec && !bytes.Equal(gotPth, wantPth):
 		r.Fail("ecvrf.ProofToHash:wrong-beta", "pi=%x got=%x want=%x", pi, gotPth, wantPth)
 	}
@@ -215,25 +223,25 @@ func c15CheckRej(c c15RejCase) h.Result {
 
 	// Verify
 	r.Eval(1)
-	wantOK, wantBeta, why := ref.VrfVerify(pk, pi, c.Alpha, fn.f)
+	wantOK, wantBeta, why := ref.VrfVerify(pk, pi, alphaIn, fn.f)
 	r.Class("ref:" + string(why))
 	var gotOK bool
 	var gotBeta []byte
 	if p, v := h.Catch(func() { gotOK, gotBeta = fn.verify(pk, pi, alpha) }); p {
-		return r.Fail("ecvrf.Verify"+fn.name+":panic", "pk=%x pi=%x: %v", pk, pi, v).Result()
+		r.Fail("ecvrf.Verify"+fn.name+":panic", "pk=%x pi=%x: %v", pk, pi, v)
+		return
 	}
 	switch {
 	case gotOK && !wantOK:
-		r.Fail("ecvrf.Verify"+fn.name+":accepted-invalid("+string(why)+")", "pkkind=%s pikind=%s pk=%x pi=%x alpha=%x", c.PkKind, c.PiKind, pk, pi, []byte(c.Alpha))
+		r.Fail("ecvrf.Verify"+fn.name+":accepted-invalid("+string(why)+")", "%s pk=%x pi=%x alpha=%x", what, pk, pi, alphaIn)
 	case !gotOK && wantOK:
-		r.Fail("ecvrf.Verify"+fn.name+":rejected-valid", "pkkind=%s pikind=%s pk=%x pi=%x alpha=%x", c.PkKind, c.PiKind, pk, pi, []byte(c.Alpha))
+		r.Fail("ecvrf.Verify"+fn.name+":rejected-valid", "%s pk=%x pi=%x alpha=%x", what, pk, pi, alphaIn)
 	case gotOK && !bytes.Equal(gotBeta, wantBeta):
 		r.Fail("ecvrf.Verify"+fn.name+":wrong-beta", "pk=%x pi=%x got=%x want=%x", pk, pi, gotBeta, wantBeta)
 	}
-	if !bytes.Equal(pk, pk0) || !bytes.Equal(pi, pi0) || !bytes.Equal(alpha, c.Alpha) {
+	if !bytes.Equal(pk, pk0) || !bytes.Equal(pi, pi0) || !bytes.Equal(alpha, alphaIn) {
 		r.Fail("ecvrf.Verify"+fn.name+":input-modified", "")
 	}
-	return r.Result()
 }
 
 func TestC15VerifyRejects(t *testing.T) { h.Run(t, c15GenRej, c15CheckRej) }
@@ -425,4 +433,52 @@ func TestC15TorsionList(t *testing.T) {
 		}
 	}
 	h.RunList(t, cases, c15CheckAdv)
+}
+
+// FuzzC15Verify (thorough tier only): Go's native mutator over (pk, pi, alpha,
+// format) with the reference inside the target, seeded with honest triples,
+// adversarial torsion-shifted proofs, small-order-key forgeries, s+L and the
+// non-canonical point strings.
+func FuzzC15Verify(f *testing.F) {
+	T := ref.Torsion8()
+	for i, v10 := range []bool{false, true} {
+		fn := c15Format(v10)
+		seed := bytes.Repeat([]byte{byte(0x31 + i)}, 32)
+		alpha := []byte("fuzz seed")
+		pk := ref.EdPublicKey(seed)
+		pi := ref.VrfProve(seed, pk, alpha, nil, fn.f)
+		f.Add(pk, pi, alpha, v10)
+		f.Add(pk, pi, []byte{}, v10)
+		x, _ := ref.VrfSecret(seed)
+		if fp, _, ok := h.C15Forge(x, pk, alpha, 0, 1, big.NewInt(77), fn.f, 400); ok {
+			f.Add(pk, fp, alpha, v10)
+		}
+		mk := ref.Add(ref.MulBase(x), T[3]).Encode()
+		if fp, _, ok := h.C15Forge(x, mk, alpha, 3, 5, big.NewInt(78), fn.f, 400); ok {
+			f.Add(mk, fp, alpha, v10)
+		}
+		for j := 0; j < 8; j++ {
+			if fp, _, ok := h.C15Forge(big.NewInt(0), T[j].Encode(), alpha, j, (j+1)%8, big.NewInt(79), fn.f, 400); ok {
+				f.Add(T[j].Encode(), fp, alpha, v10)
+			}
+		}
+		sl := append([]byte(nil), pi...)
+		s := ref.FromLE(sl[48:])
+		copy(sl[48:], ref.ToLE(s.Add(s, ref.L), 32))
+		f.Add(pk, sl, alpha, v10)
+		for _, nc := range h.AllNonCanonicalPointStrings() {
+			f.Add(nc, pi, alpha, v10)
+			f.Add(pk, append(append([]byte(nil), nc...), pi[32:]...), alpha, v10)
+		}
+	}
+	f.Fuzz(func(t *testing.T, pk, pi, alpha []byte, v10 bool) {
+		if len(pk) > 200 || len(pi) > 400 || len(alpha) > 2000 {
+			return
+		}
+		r := h.NewR()
+		c15Compare(r, c15Format(v10), pk, pi, alpha, "fuzz")
+		if res := r.Result(); res.Viol != nil {
+			t.Fatalf("VERIF-FUZZ-VIOLATION sig=%s pk=%x pi=%x alpha=%x v10=%v detail=%s", res.Viol.Sig, pk, pi, alpha, v10, res.Viol.Detail)
+		}
+	})
 }
